@@ -112,7 +112,7 @@ theorem time_at_sample_def (h mn sA sL sT p t L2 w : ℝ)
     (hh : 0 < h) (hmn : 0 < mn) (hA : 0 < sA) (hL : 0 < sL) (hT : 0 < sT) :
     timeAtSampleFromTof (cWavelengthFromTof h mn sA sL sT) p t L2 w * sT
       = p * sT + t * sT - (L2 * sL) * (w * sA) * mn / h := by
-  simp only [timeAtSampleFromTof, cWavelengthFromTof, toUnitC, asFloatLike_real]
+  simp only [timeAtSampleFromTof, cWavelengthFromTof, toUnitC, asCommon4_real]
   field_simp
 
 theorem time_at_sample_unit_equivariant (h mn sA sL sL' sT sT' p p' t t' L2 L2' w : ℝ)
@@ -148,10 +148,10 @@ theorem dspacing_from_tof_dtype (dt dL dθ : DTy) (h1 : dt ≠ err) (h2 : dL ≠
   cases dt <;> cases dL <;> cases dθ <;> first | rfl | contradiction
 
 open DTy in
-/-- `energy_from_tof`: scipp has no `pow` for an int32 base, so int32 operands cannot be evaluated; otherwise
-the precision follows tof -/
+/-- `energy_from_tof`: the flight path is promoted to float64 before it is squared, so only an int32 *tof* cannot be
+evaluated (scipp has no `pow` for an int32 base); otherwise the precision follows tof -/
 theorem energy_from_tof_dtype (dt dL : DTy) (h1 : dt ≠ err) (h2 : dL ≠ err) :
-    energyFromTof (cEnergy f64 f64 f64 f64) dt dL = if dt = i32 ∨ dL = i32 then err else floatDType dt := by
+    energyFromTof (cEnergy f64 f64 f64 f64) dt dL = if dt = i32 then err else floatDType dt := by
   cases dt <;> cases dL <;> first | rfl | contradiction
 
 open DTy in
@@ -190,17 +190,12 @@ theorem Q_element_dtype (dw : DTy) (h1 : dw ≠ err) : qElement dw f64 = floatDT
   cases dw <;> first | rfl | contradiction
 
 open DTy in
-/-- `time_at_sample_from_tof` without a float32 operand: float64 (for all integer / float64 mixes) -/
-theorem time_at_sample_dtype_no_f32 (dp dt dL dw : DTy) (h1 : dp ≠ err ∧ dp ≠ f32) (h2 : dt ≠ err ∧ dt ≠ f32)
-    (h3 : dL ≠ err ∧ dL ≠ f32) (h4 : dw ≠ err ∧ dw ≠ f32) :
-    timeAtSampleFromTof (cWavelengthFromTof f64 f64 f64 f64 f64) dp dt dL dw = f64 := by
-  obtain ⟨a1, a2⟩ := h1; obtain ⟨b1, b2⟩ := h2; obtain ⟨c1, c2⟩ := h3; obtain ⟨d1, d2⟩ := h4
+/-- `time_at_sample_from_tof`: float32 iff all four operands are float32, else float64 — decided over all
+4^4 combinations of element types -/
+theorem time_at_sample_dtype (dp dt dL dw : DTy) (h1 : dp ≠ err) (h2 : dt ≠ err) (h3 : dL ≠ err) (h4 : dw ≠ err) :
+    timeAtSampleFromTof (cWavelengthFromTof f64 f64 f64 f64 f64) dp dt dL dw
+      = if dp = f32 ∧ dt = f32 ∧ dL = f32 ∧ dw = f32 then f32 else f64 := by
   cases dp <;> cases dt <;> cases dL <;> cases dw <;> first | rfl | contradiction
-
-open DTy in
-/-- `time_at_sample_from_tof`: all-float32 operands give float32 -/
-theorem time_at_sample_dtype_all_f32 :
-    timeAtSampleFromTof (cWavelengthFromTof f64 f64 f64 f64 f64) f32 f32 f32 f32 = f32 := rfl
 
 /-! ## the executable model's dtype tags follow the abstract evaluation (all values) -/
 
@@ -221,6 +216,14 @@ theorem dty_sqSame (a : Val) : (sqSame a).dty = sqSame a.dty := dty_bin _ _ _ _ 
 theorem dty_i64 (n : Nat) : (i64 n : Val).dty = (i64 n : DTy) := rfl
 theorem dty_half : (half : Val).dty = (half : DTy) := rfl
 theorem dty_pi : (Trans.pi : Val).dty = (Trans.pi : DTy) := rfl
+
+theorem dty_asCommon4 (x a b c d : Val) :
+    (asCommon4 x a b c d).dty = asCommon4 x.dty a.dty b.dty c.dty d.dty := by
+  show (Val.cast (DTy.asCommon4 x.dty a.dty b.dty c.dty d.dty) x).dty = DTy.asCommon4 x.dty a.dty b.dty c.dty d.dty
+  generalize a.dty = ta; generalize b.dty = tb; generalize c.dty = tc; generalize d.dty = td
+  by_cases h : ta = DTy.f32 ∧ tb = DTy.f32 ∧ tc = DTy.f32 ∧ td = DTy.f32
+  · cases x <;> simp [DTy.asCommon4, h, Val.dty, Val.cast]
+  · cases x <;> simp [DTy.asCommon4, h, Val.dty, Val.cast]
 
 theorem dty_asFloatLike (a r : Val) : (asFloatLike a r).dty = asFloatLike a.dty r.dty := by
   show (Val.cast (DTy.asFloatLike a.dty r.dty) a).dty = DTy.asFloatLike a.dty r.dty
@@ -272,7 +275,7 @@ theorem model_dtype_is_abstract_constants (h mn sA sL sT sE : Val) :
 
 theorem model_dtype_is_abstract_time_at_sample (c p t L w : Val) :
     (timeAtSampleFromTof c p t L w).dty = timeAtSampleFromTof c.dty p.dty t.dty L.dty w.dty := by
-  simp only [timeAtSampleFromTof, dty_add, dty_sub, dty_mul, dty_div, dty_asFloatLike]
+  simp only [timeAtSampleFromTof, dty_add, dty_sub, dty_mul, dty_div, dty_asCommon4]
 
 theorem model_dtype_is_abstract_Q_element (w e : Val) : (qElement w e).dty = qElement w.dty e.dty := by
   simp only [qElement, dty_mul, dty_div, dty_i64, dty_pi, dty_asFloatLike]
